@@ -82,10 +82,17 @@ void fn_payload() {
     g_payload = 42;
 }
 
+int g_rounds = 1;   // > 1: the same Thread object is started again after it has been joined
+int g_round = 0;
+
 template <class C>
 void start_with(std::optional<tulz::Thread> &ot, C callable, int &a, int &b) {
     ev("StartCall");
-    if (g_form == 1) {
+    if (g_round > 0) {
+        if (g_args == 0) ot->start(callable);
+        else if (g_args == 1) ot->start(callable, a);
+        else ot->start(callable, a, b);
+    } else if (g_form == 1) {
         if (g_args == 0) ot.emplace(callable);
         else if (g_args == 1) ot.emplace(callable, a);
         else ot.emplace(callable, a, b);
@@ -128,11 +135,17 @@ void scenario() {
     }
     std::optional<tulz::Thread> ot;
     int a = 0, b = 0;
-    vs::yield("begin");
     void *trap = g_args == 0 ? (void *) &trap0 : g_args == 1 ? (void *) &trap1 : (void *) &trap2;
+  for (g_round = 0; g_round < g_rounds; ++g_round) {
+    a = b = 0;
+    vs::yield("begin");
     if (g_kind == 0) {
         ev("StartCall");
-        if (g_form == 1) {
+        if (g_round > 0) {
+            if (g_args == 0) ot->start(&fn0);
+            else if (g_args == 1) ot->start(&fn1, a);
+            else ot->start(&fn2, a, b);
+        } else if (g_form == 1) {
             if (g_args == 0) ot.emplace(&fn0);
             else if (g_args == 1) ot.emplace(&fn1, a);
             else ot.emplace(&fn2, a, b);
@@ -154,7 +167,8 @@ void scenario() {
         start_with(ot, l, a, b);
     } else {
         ev("StartCall");
-        if (g_form == 1) ot.emplace(new R());
+        if (g_round > 0) ot->start(new R());
+        else if (g_form == 1) ot.emplace(new R());
         else {
             ot.emplace();
             g_thread = &*ot;
@@ -163,11 +177,17 @@ void scenario() {
         g_thread = &*ot;
         ev("StartRet");
     }
+    if (g_round > 0) g_fin_logged = false;   // start() has returned: from here on isFinished() speaks about the new round
     tulz::Thread &t = *ot;
     scribble(trap);
     vs::yield("after");
     t.join();
     ev("JoinRet", t.isFinished() ? 1 : 0, a * 10 + b);
+    if (g_round + 1 < g_rounds) {
+        ev("Restart");
+        g_fin_logged = true;   // no sampling until the next start() has returned: until then "finished" still describes this round
+    }
+  }
     g_thread = nullptr;
     ev("Done");
 }
@@ -211,6 +231,8 @@ void run_exec(const Execution &ex) {
     g_kind = (int) ex.cfg.num("kind", 0);
     g_args = (int) ex.cfg.num("args", 0);
     g_form = (int) ex.cfg.num("form", 0);
+    g_rounds = (int) ex.cfg.num("rounds", 1);
+    g_round = 0;
     g_fin_logged = false;
     if (rd_atomic_yield) rd_atomic_yield((int) ex.cfg.num("ay", 0));
     if (rd_access_yield) rd_access_yield((int) ex.cfg.num("accy", 0), (unsigned) ex.cfg.num("seed", 1));
